@@ -39,8 +39,8 @@
 #define MAXCTX 8
 #define LONG_MS 10000
 
-enum { K_CORRECT, K_DUP, K_STALE, K_OTHER, K_NOBIT, K_EARLY, K_DELAYED, K_ECHO, K_NEIGHBOUR, K_FORGED, K_SHORT, K_N };
-static const char *kname[K_N] = { "correct", "dup", "stale", "other-ctx", "nobit", "early", "delayed", "echo", "neighbour-id", "forged-before-wire", "short" };
+enum { K_CORRECT, K_DUP, K_STALE, K_OTHER, K_NOBIT, K_EARLY, K_DELAYED, K_ECHO, K_NEIGHBOUR, K_FORGED, K_REFUSED, K_SHORT, K_N };
+static const char *kname[K_N] = { "correct", "dup", "stale", "other-ctx", "nobit", "early", "delayed", "echo", "neighbour-id", "forged-before-wire", "refused-id", "short" };
 
 enum { D_NORMAL, D_HOLD, D_DELAY };
 enum { M_TCPADV, M_XREP, M_REP, M_N };
@@ -48,13 +48,17 @@ static const char *mname[M_N] = { "tcpadv", "xrep", "rep" };
 
 // status of a request (per ctx, per seq)
 enum { ST_NONE, ST_OUT, ST_ANSWERED, ST_TIMEDOUT, ST_ABORTED, ST_SUPERSEDED, ST_CONNRESET, ST_SENDFAIL, ST_CLOSED,
-       ST_AB_TIMEOUT, ST_AB_CANCEL, ST_AB_SUPERSEDED, ST_AB_RECVCANCEL, ST_AB_CLOSED, ST_N };
+       ST_AB_TIMEOUT, ST_AB_CANCEL, ST_AB_SUPERSEDED, ST_AB_RECVCANCEL, ST_AB_CLOSED, ST_AB_REFUSED, ST_AB_SENDRECV, ST_N };
 static const char *stname[ST_N] = { "never-sent", "outstanding", "answered", "timed-out", "aborted", "superseded", "conn-reset", "send-failed", "ctx-closed",
 	// abandoned before the request reached the wire (the send was still queued):
-	"abandoned-send-timeout", "abandoned-send-cancelled", "abandoned-superseded-in-queue", "abandoned-recv-cancelled-in-queue", "abandoned-ctx-closed" };
+	"abandoned-send-timeout", "abandoned-send-cancelled", "abandoned-superseded-in-queue", "abandoned-recv-cancelled-in-queue", "abandoned-ctx-closed",
+	// refused at once (non-blocking send, no pipe ready): never queued at all
+	"abandoned-send-refused",
+	// send timed out / cancelled in the queue with a receive already posted
+	"abandoned-send-cancelled-with-recv" };
 
-enum { OP_NORMAL, OP_SUPERSEDE, OP_TIMEOUT, OP_ABORT, OP_SENDOVER, OP_ABANDON, OP_SYNC, OP_PROBE, OP_N };
-static const char *opname[OP_N] = { "normal", "supersede", "timeout", "abort", "send-over-recv", "after-abandon", "sync-api", "idle-probe" };
+enum { OP_NORMAL, OP_SUPERSEDE, OP_TIMEOUT, OP_ABORT, OP_SENDOVER, OP_ABANDON, OP_SYNC, OP_PROBE, OP_REFUSED, OP_NBSEND, OP_N };
+static const char *opname[OP_N] = { "normal", "supersede", "timeout", "abort", "send-over-recv", "after-abandon", "sync-api", "idle-probe", "after-refused-send", "nonblock-send" };
 
 typedef struct {
 	int      mode, tran, nctx, npipes;
@@ -144,6 +148,14 @@ typedef struct {
 	bool            blackouts;
 	long            next_blackout; // request count at which the next one starts
 	int             neigh_den;     // 1/neigh_den of new requests get neighbour-id replies
+	// ids of requests whose send the REQ socket refused at once (told by the
+	// context threads): never on any wire, to be "answered" all the same
+	struct {
+		uint32_t id, tag, seq;
+	} refq[64];
+	int             nrefq;
+	long            ref_pushed;
+	_Atomic long    ref_emitted;
 	_Atomic bool    blackout;      // no connection is served or accepted
 	_Atomic uint64_t blackout_until;
 	_Atomic uint32_t serial;
@@ -177,6 +189,9 @@ adv_init(const casecfg *cc)
 	memset(A.inj, 0, sizeof(A.inj));
 	memset(A.inj_seen, 0, sizeof(A.inj_seen));
 	A.held = A.resend_seen = A.killed = A.early_unread = A.requests = A.id_reuse = 0;
+	A.nrefq = 0;
+	A.ref_pushed = 0;
+	atomic_store(&A.ref_emitted, 0);
 	atomic_store(&A.serial, 0);
 	atomic_store(&A.stop, false);
 	pthread_mutex_lock(&dl_mtx);
@@ -289,6 +304,47 @@ adv_neighbours(uint32_t id, uint32_t tag, uint32_t seq, pframe *out)
 		A.inj_seen[IS_LATEST_OPEN][K_NEIGHBOUR] = true;
 		n++;
 	}
+	return n;
+}
+
+// A context tells the adversary the id of a request whose send was refused at
+// once (the id is in the header of the message handed back).  Returns a ticket:
+// A.ref_emitted >= ticket means the forged reply has been written.  0: not
+// queued.
+static long
+adv_push_refused(uint32_t id, uint32_t tag, uint32_t seq)
+{
+	long ticket = 0;
+	pthread_mutex_lock(&A.mtx);
+	if (A.tab != NULL && A.nrefq < 64 && id_lookup(id, false) == NULL) {
+		A.refq[A.nrefq].id = id;
+		A.refq[A.nrefq].tag = tag;
+		A.refq[A.nrefq].seq = seq;
+		A.nrefq++;
+		ticket = ++A.ref_pushed;
+	}
+	pthread_mutex_unlock(&A.mtx);
+	return ticket;
+}
+
+static int
+adv_pop_refused(pframe *out, int max)
+{
+	int n = 0;
+	pthread_mutex_lock(&A.mtx);
+	while (n < max && A.nrefq > 0) {
+		out[n].idword = A.refq[0].id;
+		out[n].tag = A.refq[0].tag;
+		out[n].seq = A.refq[0].seq;
+		out[n].klass = K_REFUSED;
+		out[n].defer_ms = 0;
+		A.nrefq--;
+		memmove(&A.refq[0], &A.refq[1], (size_t) A.nrefq * sizeof(A.refq[0]));
+		A.inj[K_REFUSED]++;
+		A.inj_seen[IS_OLD][K_REFUSED] = true;
+		n++;
+	}
+	pthread_mutex_unlock(&A.mtx);
 	return n;
 }
 
@@ -472,6 +528,16 @@ tcp_conn_thread(void *arg)
 			}
 		}
 		if (atomic_load(&A.blackout)) break; // drop the connection
+		{
+			// "replies" to requests whose send was refused
+			pframe rf[8];
+			int    nr = adv_pop_refused(rf, 8);
+			bool   lost = false;
+			for (int i = 0; i < nr && !lost; i++) lost = tcp_emit(fd, &rf[i]) != 0;
+			// (written or lost, they are dealt with: nobody need wait)
+			if (nr) atomic_fetch_add(&A.ref_emitted, nr);
+			if (lost) goto out;
+		}
 		int to = A.blackouts ? 2 : 50;
 		if (next != 0) {
 			to = (int) ((next - now) / 1000000) + 1;
@@ -513,8 +579,10 @@ tcp_conn_thread(void *arg)
 			}
 		}
 		memcpy(big, hdr + 12, VF_BODY_MIN);
-		if (rest && vf_fd_read_full(fd, big + VF_BODY_MIN, rest, LONG_MS) != (long) rest) {
-			if (!atomic_load(&A.stop)) vf_violation("C04/request-garbled/truncated", "request body truncated");
+		uint64_t rb0 = vf_now_ns();
+		long     rgot = rest ? vf_fd_read_full(fd, big + VF_BODY_MIN, rest, LONG_MS) : 0;
+		if (rgot != (long) rest) {
+			if (!atomic_load(&A.stop)) vf_violation("C04/request-garbled/truncated", "request body truncated: frame of ctx %u seq %u (id %08x) announced %llu bytes, %ld of the remaining %zu arrived in %llu ms (%s)", tag & 0xff, seq, id, (unsigned long long) len, rgot, rest, (unsigned long long) ((vf_now_ns() - rb0) / 1000000), early ? "answered early" : "not answered yet");
 			break;
 		}
 		uint32_t t2;
@@ -624,8 +692,15 @@ xrep_thread(void *arg)
 	vf_rng   lr;
 	(void) arg;
 	vf_rng_seed(&lr, 4242, 98);
+	uint32_t lastpipe = 0;
 	while (!atomic_load(&A.stop)) {
 		uint64_t now = vf_now_ns();
+		if (lastpipe != 0) {
+			pframe rf[8];
+			int    nr = adv_pop_refused(rf, 8);
+			for (int i = 0; i < nr; i++) xrep_emit(lastpipe, &rf[i]);
+			if (nr) atomic_fetch_add(&A.ref_emitted, nr);
+		}
 		for (int i = 0; i < ndq;) {
 			if (dq[i].due <= now) {
 				adv_account_deferred(&dq[i].f);
@@ -648,6 +723,7 @@ xrep_thread(void *arg)
 		}
 		const uint8_t *h = nng_msg_header(m);
 		uint32_t       pipe = get32(h), id = get32(h + 4);
+		lastpipe = pipe;
 		if (vf_body_check(nng_msg_body(m), nng_msg_len(m), &tag, &seq) != 0) {
 			vf_violation("C04/request-garbled/body", "request body of %zu bytes fails its checksum", nng_msg_len(m));
 			nng_msg_free(m);
@@ -752,11 +828,16 @@ rep_worker(void *arg)
 // harness asked for is excused (as the timer defect of property C02: a stale
 // pick of an earlier operation on the same aio) only if such a pick exists
 // that no completed timeout accounts for; a timeout the timer never produced
-// is this property's business.
+// is this property's business.  A pick explains only an operation that was
+// started no later than PICK_AGE_NS after it: the stale cancellation follows
+// its pick within a fraction of a second (C02 demands 250 ms), so a pick whose
+// cancellation hit nothing does not stay good for ever.
 #define NWATCH (MAXCTX * 4)
+#define PICK_AGE_NS 2000000000ULL
 typedef struct {
 	_Atomic(const void *) aio;
 	_Atomic long          picks;
+	_Atomic uint64_t      last_pick_ns;
 } watch;
 static watch WT[NWATCH];
 
@@ -767,6 +848,7 @@ c04_ev(int ev, const void *obj, uintptr_t a, uintptr_t b)
 	if (ev != NNI_VE_AIO_EXPIRE || (int) a != NNG_ETIMEDOUT) return;
 	for (int i = 0; i < NWATCH; i++) {
 		if (atomic_load_explicit(&WT[i].aio, memory_order_relaxed) == obj) {
+			atomic_store(&WT[i].last_pick_ns, vf_now_ns());
 			atomic_fetch_add(&WT[i].picks, 1);
 			return;
 		}
@@ -783,6 +865,7 @@ typedef struct {
 	nng_ctx        ctx;
 	nng_aio       *saio, *saio2, *raio, *raio2;
 	long           acct[4]; // expire-loop picks of our aios already accounted for
+	uint64_t       t0[4];   // when the current operation on each aio was submitted
 	const casecfg *cc;
 	vf_rng         rng;
 	long           quota;
@@ -796,6 +879,9 @@ typedef struct {
 	long dlv[K_N], ops[OP_N], estate_ok, connreset, premature, timeouts, abort_won, abort_lost, clobbered, over_cancelled, over_delivered, retry_changes, sends;
 	long abandoned[ST_N], abandon_sent, neigh_collision, neigh_unjudged;
 	long estate_second, sync_ops, nb_eagain, nb_reply, sync_estate;
+	long picks_voided, refused[3], nb_accepted[3], refused_estate, refused_estate_sync, refused_forged_probed, refused_next, refused_id_known;
+	long sendrecv_together, sendrecv_estate, timeout_race_won, timeout_race_lost;
+	bool refused_seen[3][2];
 	bool dlv_seen[OP_N][K_N];
 } cthr;
 
@@ -814,8 +900,16 @@ mktag(const cthr *t, int dir)
 static bool
 timer_explains(cthr *t, int which)
 {
-	long picks = atomic_load(&WT[t->idx * 4 + which].picks);
+	watch *w = &WT[t->idx * 4 + which];
+	long   picks = atomic_load(&w->picks);
 	if (picks > t->acct[which]) {
+		uint64_t last = atomic_load(&w->last_pick_ns);
+		if (t->t0[which] != 0 && last + PICK_AGE_NS < t->t0[which]) {
+			// every unaccounted pick is older than that: void them
+			t->picks_voided += picks - t->acct[which];
+			t->acct[which] = picks;
+			return false;
+		}
 		t->acct[which]++;
 		return true;
 	}
@@ -878,6 +972,7 @@ t_send(cthr *t, int dir, bool big)
 	}
 	for (int attempt = 0;; attempt++) {
 		uint64_t t0 = vf_now_ns();
+		t->t0[W_SEND] = t0;
 		nng_aio_set_msg(t->saio, m);
 		nng_aio_set_timeout(t->saio, LONG_MS);
 		if (t->is_sock) {
@@ -920,6 +1015,7 @@ static void
 t_recv_start(cthr *t, int timeout_ms)
 {
 	nng_aio_set_timeout(t->raio, timeout_ms);
+	t->t0[W_RECV] = vf_now_ns();
 	if (t->is_sock) {
 		nng_socket_recv(t->sock, t->raio);
 	} else {
@@ -978,6 +1074,16 @@ judge(cthr *t, nng_msg *m, uint32_t expect, int op)
 		vf_violation("C04/at-most-once/frame-delivered-twice", "ctx %d op %s: reply frame #%u (%s, for ctx %d seq %u) was delivered a second time", t->idx, opname[op], serial, kname[kl], c, seq);
 		bad = true;
 	}
+	if (!bad && kl == K_REFUSED) {
+		// The id of a request whose send was refused on the spot: it was
+		// unregistered then and ids do not repeat within a case, so no
+		// request, past or present, can be answered by it.
+		char key[128];
+		snprintf(key, sizeof(key), "C04/unknown-id-delivered/refused-send-id/%s", opname[op]);
+		vf_violation(key, "ctx %d op %s (outstanding seq %u): reply frame #%u carrying id %08x was delivered; that id belonged to ctx %d's request seq %u whose non-blocking send was refused (never queued, never sent)", t->idx, opname[op], expect, serial, idword, c, seq);
+		nng_msg_free(m);
+		return;
+	}
 	if (!bad && kl == K_NEIGHBOUR) {
 		// A reply with an id the peer never saw.  It may legitimately hit
 		// a request that is (or was about to be) on the wire with exactly
@@ -1032,7 +1138,7 @@ judge(cthr *t, nng_msg *m, uint32_t expect, int op)
 }
 
 // recv with no outstanding request must fail with NNG_ESTATE
-static void
+static int
 probe_idle(cthr *t)
 {
 	nng_msg *m;
@@ -1051,6 +1157,26 @@ probe_idle(cthr *t)
 		snprintf(key, sizeof(key), "C04/state/req-recv-without-request/%s", errname(rv));
 		vf_violation(key, "ctx %d: receive with no outstanding request (previous %s) returned %s, expected NNG_ESTATE", t->idx, stname[t->last_state], nng_strerror(rv));
 	}
+	return rv;
+}
+
+// the same through the synchronous wrappers
+static int
+probe_idle_sync(cthr *t, bool nonblock)
+{
+	nng_msg *m = NULL;
+	int      fl = nonblock ? NNG_FLAG_NONBLOCK : 0;
+	int      rv = t->is_sock ? nng_recvmsg(t->sock, &m, fl) : nng_ctx_recvmsg(t->ctx, &m, fl);
+	if (rv == 0) {
+		judge(t, m, 0, OP_SYNC);
+	} else if (rv == NNG_ESTATE) {
+		t->sync_estate++;
+	} else if (!(rv == NNG_ECONNRESET && LOSSY(t->cc) && t->cc->retry_ms <= 0)) {
+		char key[96];
+		snprintf(key, sizeof(key), "C04/state/req-recv-without-request/sync-%s", errname(rv));
+		vf_violation(key, "ctx %d: %s synchronous receive with no outstanding request (previous %s) returned %s, expected NNG_ESTATE", t->idx, nonblock ? "non-blocking" : "blocking", stname[t->last_state], nng_strerror(rv));
+	}
+	return rv;
 }
 
 // While the context's receive is posted (or has just completed) a second
@@ -1059,6 +1185,7 @@ static void
 second_recv(cthr *t)
 {
 	nng_aio_set_timeout(t->raio2, 2000);
+	t->t0[W_RECV2] = vf_now_ns();
 	if (t->is_sock) {
 		nng_socket_recv(t->sock, t->raio2);
 	} else {
@@ -1082,17 +1209,12 @@ second_recv(cthr *t)
 	}
 }
 
-// finish the outstanding request with a blocking receive
+// the receive for outstanding request 'cur' (posted at t0 with LONG_MS) ends
 static void
-recv_expect(cthr *t, int op)
+recv_finish(cthr *t, int op, uint32_t cur, uint64_t t0)
 {
 	nng_msg *m;
-	uint64_t t0 = vf_now_ns();
-	uint32_t cur = t->cur;
-	int      rv;
-	t_recv_start(t, LONG_MS);
-	if (vf_chance(&t->rng, 1, 12)) second_recv(t);
-	rv = t_recv_wait(t, &m);
+	int      rv = t_recv_wait(t, &m);
 	uint64_t el = (vf_now_ns() - t0) / 1000000;
 	t->cur = 0;
 	if (rv == 0) {
@@ -1117,6 +1239,17 @@ recv_expect(cthr *t, int op)
 	}
 }
 
+// finish the outstanding request with a blocking receive
+static void
+recv_expect(cthr *t, int op)
+{
+	uint64_t t0 = vf_now_ns();
+	uint32_t cur = t->cur;
+	t_recv_start(t, LONG_MS);
+	if (vf_chance(&t->rng, 1, 12)) second_recv(t);
+	recv_finish(t, op, cur, t0);
+}
+
 // asynchronous halves of a send, for the operations that abandon a request
 // while it is (possibly) still queued inside the socket
 static uint32_t
@@ -1133,6 +1266,7 @@ t_send_begin(cthr *t, int dir, nng_aio *aio, int timeout_ms)
 	}
 	nng_aio_set_msg(aio, m);
 	nng_aio_set_timeout(aio, timeout_ms);
+	t->t0[aio == t->saio ? W_SEND : W_SEND2] = vf_now_ns();
 	if (t->is_sock) {
 		nng_socket_send(t->sock, aio);
 	} else {
@@ -1159,8 +1293,122 @@ t_send_end(cthr *t, nng_aio *aio, uint32_t seq)
 	return rv;
 }
 
-static void probe_idle(cthr *t);
+static int  probe_idle(cthr *t);
 static void recv_expect(cthr *t, int op);
+
+// A send that cannot wait (NNG_FLAG_NONBLOCK, an aio with a zero timeout or
+// with an expiry time that has passed) is refused on the spot when no pipe is
+// ready for it: the caller keeps the message, nothing is queued, no request
+// exists.  So a receive must be rejected with NNG_ESTATE (all forms, at once),
+// the id the socket had drawn for the request is dead (the raw peer "answers"
+// it: the message handed back still carries it in its header), and the next
+// request is an ordinary exchange.  When a pipe is ready the send is accepted
+// and is an ordinary request.
+enum { RF_AIO0, RF_EXPIRE, RF_SYNC, RF_N };
+static const char *rfname[RF_N] = { "aio-timeout-0", "aio-expiry-past", "sync-nonblock" };
+
+static void
+op_refused(cthr *t)
+{
+	const casecfg *cc = t->cc;
+	vf_rng        *r = &t->rng;
+	nng_msg       *m;
+	int            form = (int) vf_below(r, RF_N), rv;
+	size_t         size = req_size(t, false);
+	if (nng_msg_alloc(&m, size) != 0) vf_harness_fail("msg alloc");
+	uint32_t seq = ++t->seq, tag = mktag(t, D_NORMAL);
+	vf_body_make(nng_msg_body(m), size, tag, seq);
+	if (t->cur != 0) {
+		set_status(t, t->cur, ST_SUPERSEDED);
+		t->cur = 0;
+	}
+	int pipes = vf_pipe_count(t->sock);
+	if (form == RF_SYNC) {
+		rv = t->is_sock ? nng_sendmsg(t->sock, m, NNG_FLAG_NONBLOCK) : nng_ctx_sendmsg(t->ctx, m, NNG_FLAG_NONBLOCK);
+		if (rv == NNG_EAGAIN) rv = NNG_ETIMEDOUT;
+		else if (rv == NNG_ETIMEDOUT) rv = NNG_EINTERNAL;
+	} else {
+		nng_aio_set_msg(t->saio, m);
+		nng_aio_set_timeout(t->saio, form == RF_AIO0 ? 0 : LONG_MS);
+		if (form == RF_EXPIRE) nng_aio_set_expire(t->saio, nng_clock());
+		t->t0[W_SEND] = vf_now_ns();
+		if (t->is_sock) {
+			nng_socket_send(t->sock, t->saio);
+		} else {
+			nng_ctx_send(t->ctx, t->saio);
+		}
+		nng_aio_wait(t->saio);
+		if ((rv = nng_aio_result(t->saio)) != 0) {
+			m = nng_aio_get_msg(t->saio);
+			nng_aio_set_msg(t->saio, NULL);
+		}
+	}
+	if (rv == 0) {
+		// a pipe was ready: accepted, an ordinary request
+		t->sends++;
+		t->nb_accepted[form]++;
+		set_status(t, seq, ST_OUT);
+		t->cur = seq;
+		recv_expect(t, OP_NBSEND);
+		return;
+	}
+	if (rv != NNG_ETIMEDOUT) {
+		char key[96];
+		snprintf(key, sizeof(key), "C04/disturbed/send-failed/nonblock-%s", errname(rv));
+		vf_violation(key, "ctx %d: non-blocking send (%s) of request seq %u failed with %s (%d pipes)", t->idx, rfname[form], seq, nng_strerror(rv), pipes);
+		if (m != NULL) nng_msg_free(m);
+		set_status(t, seq, ST_SENDFAIL);
+		return;
+	}
+	// refused
+	uint32_t rid = 0;
+	long     ticket = 0;
+	if (m != NULL) {
+		if (nng_msg_header_len(m) == 4) rid = get32(nng_msg_header(m));
+		nng_msg_free(m);
+	}
+	set_status(t, seq, ST_AB_REFUSED);
+	t->abandoned[ST_AB_REFUSED]++;
+	t->refused[form]++;
+	t->refused_seen[form][pipes > 0 ? 1 : 0] = true;
+	if ((rid & 0x80000000u) != 0) {
+		t->refused_id_known++;
+		if (cc->mode != M_REP) ticket = adv_push_refused(rid, tag, seq);
+	}
+	switch (vf_below(r, 6)) {
+	case 0:
+		if (probe_idle(t) == NNG_ESTATE) t->refused_estate++;
+		break;
+	case 1:
+		if (probe_idle_sync(t, true) == NNG_ESTATE) t->refused_estate_sync++;
+		break;
+	case 2:
+		// (the blocking form only once the others have said ESTATE: a
+		// receive that is wrongly accepted blocks for its whole timeout)
+		if (probe_idle(t) == NNG_ESTATE && probe_idle_sync(t, true) == NNG_ESTATE) {
+			t->refused_estate++;
+			if (probe_idle_sync(t, false) == NNG_ESTATE) t->refused_estate_sync++;
+		}
+		break;
+	case 3:
+		if (ticket != 0) {
+			// wait (a bounded while) until the peer has written its
+			// "reply" to the refused request, give it time to arrive,
+			// then look: it must not have been kept for this context
+			for (uint64_t w0 = vf_now_ns(); atomic_load(&A.ref_emitted) < ticket && vf_now_ns() - w0 < 60000000ULL;) vf_usleep(200);
+			bool emitted = atomic_load(&A.ref_emitted) >= ticket;
+			vf_usleep(200 + (int) vf_below(r, 1500));
+			if (probe_idle(t) == NNG_ESTATE && emitted) t->refused_forged_probed++;
+		}
+		break;
+	default: // straight on: the "reply" arrives while the next request is out
+		break;
+	}
+	if (t_send(t, D_NORMAL, false) != 0) return;
+	t->abandon_sent++;
+	t->refused_next++;
+	recv_expect(t, OP_REFUSED);
+}
 
 // Abandon a request, if possible before it reaches the wire (no usable pipe:
 // the send is queued), then send the next request on the same context.  The
@@ -1172,10 +1420,16 @@ op_abandon(cthr *t)
 	const casecfg *cc = t->cc;
 	vf_rng        *r = &t->rng;
 	nng_msg       *m;
-	int            variant = (int) vf_below(r, t->is_sock ? 4 : 5);
+	// variants: 0-3, 4 (contexts only), 5 = refused at once (twice as likely), 6
+	static const int vsock[] = { 0, 1, 2, 3, 5, 5, 6 }, vctx[] = { 0, 1, 2, 3, 4, 5, 5, 6 };
+	int            variant = t->is_sock ? vsock[vf_below(r, 7)] : vctx[vf_below(r, 8)];
 	uint32_t       a, b;
 	int            rv, rv2;
 	bool           unexpected = false;
+	if (variant == 5) {
+		op_refused(t);
+		return;
+	}
 	switch (variant) {
 	case 0: // send timeout
 		a = t_send_begin(t, D_NORMAL, t->saio, (int) vf_range(r, 1, 3));
@@ -1254,6 +1508,82 @@ op_abandon(cthr *t)
 			unexpected = true;
 		}
 		break;
+	case 6: { // a receive is posted while the send is queued; the SEND times out / is cancelled
+		bool     by_timeout = vf_chance(r, 1, 2);
+		uint64_t t0 = vf_now_ns();
+		a = t_send_begin(t, D_NORMAL, t->saio, by_timeout ? (int) vf_range(r, 1, 3) : LONG_MS);
+		t_recv_start(t, LONG_MS);
+		if (!by_timeout) {
+			if (vf_chance(r, 1, 2)) vf_usleep((int) vf_below(r, 300));
+			nng_aio_cancel(t->saio);
+		}
+		rv = t_send_end(t, t->saio, a);
+		if (rv == 0) {
+			// it went to a pipe: an ordinary request whose receive is
+			// already posted
+			recv_finish(t, OP_NORMAL, a, t0);
+			t->cur = 0;
+			return;
+		}
+		rv2 = t_recv_wait(t, &m);
+		t->cur = 0;
+		if (rv == NNG_ETIMEDOUT) {
+			// (expected with the short timeout; otherwise only C02's
+			// stale expiry can produce it)
+			bool timer = timer_explains(t, W_SEND);
+			if (!by_timeout) {
+				if (timer) {
+					t->premature++;
+				} else {
+					early_timeout(t, "send", a, (unsigned long long) ((vf_now_ns() - t0) / 1000000));
+				}
+			}
+		}
+		if (rv == NNG_ECANCELED && by_timeout && rv2 == NNG_ETIMEDOUT && (vf_now_ns() - t0) / 1000000 < LONG_MS * 9 / 10 && timer_explains(t, W_RECV)) {
+			// C02's stale expiry of an earlier receive on this aio hit the
+			// receive just posted; a receive that fails takes the queued
+			// send with it (NNG_ECANCELED).  Abandoned all the same.
+			t->premature++;
+			set_status(t, a, ST_AB_SENDRECV);
+			break;
+		}
+		if (rv != (by_timeout ? NNG_ETIMEDOUT : NNG_ECANCELED) && rv != NNG_ETIMEDOUT) {
+			char key[128];
+			snprintf(key, sizeof(key), "C04/disturbed/send-failed/%s", errname(rv));
+			vf_violation(key, "ctx %d: a queued send (%s) with a receive posted behind it ended with %s, the receive with %s%s", t->idx, by_timeout ? "1-3 ms timeout" : "cancelled", nng_strerror(rv), nng_strerror(rv2), rv2 == 0 ? " and a message" : "");
+			if (rv2 == 0 && m != NULL) nng_msg_free(m);
+			set_status(t, a, ST_SENDFAIL);
+			return;
+		}
+		// nothing was sent, so the receive cannot have an answer: it fails
+		// with the send (same error), or was refused if the send had
+		// already failed when it was posted
+		if (rv2 == 0) {
+			set_status(t, a, ST_AB_SENDRECV);
+			judge(t, m, 0, OP_ABANDON);
+		} else if (rv2 == rv) {
+			// (the send's own expiry, passed on: no pick of the receive aio)
+			set_status(t, a, ST_AB_SENDRECV);
+			t->abandoned[ST_AB_SENDRECV]++;
+			t->sendrecv_together++;
+		} else if (rv2 == NNG_ESTATE) {
+			set_status(t, a, rv == NNG_ETIMEDOUT ? ST_AB_TIMEOUT : ST_AB_CANCEL);
+			t->abandoned[rv == NNG_ETIMEDOUT ? ST_AB_TIMEOUT : ST_AB_CANCEL]++;
+			t->sendrecv_estate++;
+		} else if (rv2 == NNG_ETIMEDOUT && (vf_now_ns() - t0) / 1000000 < LONG_MS * 9 / 10 && timer_explains(t, W_RECV)) {
+			set_status(t, a, ST_AB_SENDRECV);
+			t->premature++;
+		} else if (rv2 == NNG_ECONNRESET && LOSSY(cc) && cc->retry_ms <= 0) {
+			set_status(t, a, ST_AB_SENDRECV);
+			t->connreset++;
+		} else {
+			char key[128];
+			snprintf(key, sizeof(key), "C04/state/req-recv-with-abandoned-send/%s/%s", errname(rv), errname(rv2));
+			vf_violation(key, "ctx %d: a receive posted while request seq %u was still queued ended with %s after %llu ms although the send itself failed with %s (nothing was ever sent; expected the same error, or NNG_ESTATE)", t->idx, a, nng_strerror(rv2), (unsigned long long) ((vf_now_ns() - t0) / 1000000), nng_strerror(rv));
+			set_status(t, a, ST_AB_SENDRECV);
+		}
+		break;
+	}
 	default: // the context is closed with the send queued; a new one replaces it
 		a = t_send_begin(t, D_NORMAL, t->saio, LONG_MS);
 		if (vf_chance(r, 1, 2)) vf_usleep((int) vf_below(r, 300));
@@ -1354,17 +1684,7 @@ op_sync(cthr *t)
 		set_status(t, seq, ST_TIMEDOUT);
 	}
 	// idle now: the synchronous receive must say so too
-	m = NULL;
-	rv = t->is_sock ? nng_recvmsg(t->sock, &m, vf_chance(r, 1, 2) ? NNG_FLAG_NONBLOCK : 0) : nng_ctx_recvmsg(t->ctx, &m, vf_chance(r, 1, 2) ? NNG_FLAG_NONBLOCK : 0);
-	if (rv == 0) {
-		judge(t, m, 0, OP_SYNC);
-	} else if (rv == NNG_ESTATE) {
-		t->sync_estate++;
-	} else if (!(rv == NNG_ECONNRESET && LOSSY(t->cc) && t->cc->retry_ms <= 0)) {
-		char key[96];
-		snprintf(key, sizeof(key), "C04/state/req-recv-without-request/sync-%s", errname(rv));
-		vf_violation(key, "ctx %d: synchronous receive with no outstanding request (previous %s) returned %s, expected NNG_ESTATE", t->idx, stname[t->last_state], nng_strerror(rv));
-	}
+	(void) probe_idle_sync(t, vf_chance(r, 1, 2));
 }
 
 static void *
@@ -1386,6 +1706,13 @@ ctx_thread(void *arg)
 			t->ops[OP_ABANDON]++;
 			op_abandon(t);
 			if (t->cur == 0 && vf_chance(r, 1, 4)) probe_idle(t);
+			continue;
+		}
+		if (vf_chance(r, 1, 20)) {
+			// a send that cannot wait, in the middle of ordinary traffic:
+			// accepted when a pipe is ready, refused when all are busy
+			t->ops[OP_NBSEND]++;
+			op_refused(t);
 			continue;
 		}
 		if (vf_chance(r, 1, 14)) {
@@ -1425,19 +1752,26 @@ ctx_thread(void *arg)
 		}
 		case OP_TIMEOUT: {
 			// the peer holds the request; the receive times out, which
-			// cancels the request
-			if (t_send(t, D_HOLD, false) != 0) break;
+			// cancels the request.  Or (a third) the peer answers and the
+			// receive's timeout is about one round trip, so that expiry
+			// and reply race: either the reply is delivered, or the
+			// request is cancelled and its reply (already on its way)
+			// must not be kept for the idle context (probe below).
+			bool race = vf_chance(r, 1, 3);
+			if (t_send(t, race ? D_NORMAL : D_HOLD, false) != 0) break;
 			uint32_t cur = t->cur;
-			t_recv_start(t, (int) vf_range(r, 1, 8));
+			t_recv_start(t, race ? (int) vf_range(r, 1, 2) : (int) vf_range(r, 1, 8));
 			rv = t_recv_wait(t, &m);
 			t->cur = 0;
 			if (rv == 0) {
 				set_status(t, cur, ST_ANSWERED);
+				if (race) t->timeout_race_lost++;
 				judge(t, m, cur, op); // a held request is never answered
 			} else if (rv == NNG_ETIMEDOUT) {
 				(void) timer_explains(t, W_RECV);
 				set_status(t, cur, ST_TIMEDOUT);
 				t->timeouts++;
+				if (race) t->timeout_race_won++;
 			} else if (rv == NNG_ECONNRESET && LOSSY(cc) && cc->retry_ms <= 0) {
 				set_status(t, cur, ST_CONNRESET);
 				t->connreset++;
@@ -1652,8 +1986,11 @@ run_case(long idx, const casecfg *cc)
 		for (int w = 0; w < 4; w++) atomic_store(&WT[i * 4 + w].aio, (const void *) NULL);
 		nng_aio_free(th[i].raio);
 	}
-	nng_socket_close(req);
+	// (stop first: a request frame that the close itself cuts short - a
+	// resent copy or an early-answered big request still being written - is
+	// no garbled request)
 	atomic_store(&A.stop, true);
+	nng_socket_close(req);
 	if (cc->mode == M_TCPADV) {
 		pthread_join(T.acc, NULL);
 		for (int i = 0; i < T.nconns; i++) pthread_join(T.conns[i].thr, NULL);
@@ -1674,13 +2011,14 @@ run_case(long idx, const casecfg *cc)
 	long dlv[K_N] = { 0 }, delivered = 0;
 	char buf[64];
 	const char *rt = cc->retry_ms > 0 ? "resend" : "noresend";
+	const char *tn = vf_tran_names[cc->tran];
 	for (int i = 0; i < cc->nctx; i++) {
 		cthr *t = &th[i];
 		for (int k = 0; k < K_N; k++) {
 			dlv[k] += t->dlv[k];
 			delivered += t->dlv[k];
 			for (int o = 0; o < OP_N; o++) {
-				if (t->dlv_seen[o][k]) vf_class("dlv/%s/%s/%s/%s/%s", mname[cc->mode], rt, t->is_sock ? "sock" : "ctx", opname[o], kname[k]);
+				if (t->dlv_seen[o][k]) vf_class("dlv/%s/%s/%s/%s/%s/%s", mname[cc->mode], tn, rt, t->is_sock ? "sock" : "ctx", opname[o], kname[k]);
 			}
 		}
 		for (int o = 0; o < OP_N; o++) {
@@ -1704,23 +2042,48 @@ run_case(long idx, const casecfg *cc)
 		vf_stat("recv_completed_before_send", t->over_delivered);
 		vf_stat("resendtime_changes", t->retry_changes);
 		long ab = 0;
-		for (int a = ST_AB_TIMEOUT; a <= ST_AB_CLOSED; a++) {
+		for (int a = ST_AB_TIMEOUT; a < ST_N; a++) {
 			snprintf(buf, sizeof(buf), "%s", stname[a]);
 			for (char *q = buf; *q; q++) if (*q == '-') *q = '_';
 			vf_stat(buf, t->abandoned[a]);
 			ab += t->abandoned[a];
-			if (t->abandoned[a]) vf_class("abandon/%s/%s/%s", mname[cc->mode], t->is_sock ? "sock" : "ctx", stname[a]);
+			if (t->abandoned[a]) vf_class("abandon/%s/%s/%s/%s", mname[cc->mode], tn, t->is_sock ? "sock" : "ctx", stname[a]);
 		}
 		vf_stat("abandoned_before_wire", ab);
+		vf_stat("abandoned_while_queued", ab - t->abandoned[ST_AB_REFUSED]);
 		vf_stat("requests_after_abandon", t->abandon_sent);
 		vf_stat("neighbour_id_hit_live_request", t->neigh_collision);
 		vf_stat("neighbour_id_unjudged", t->neigh_unjudged);
+		vf_stat(t->is_sock ? "estate_req_second_recv_socket" : "estate_req_second_recv_ctx", t->estate_second);
+		vf_stat("stale_pick_credits_voided", t->picks_voided);
+		for (int f = 0; f < RF_N; f++) {
+			snprintf(buf, sizeof(buf), "send_refused_%s", rfname[f]);
+			for (char *q = buf; *q; q++) if (*q == '-') *q = '_';
+			vf_stat(buf, t->refused[f]);
+			snprintf(buf, sizeof(buf), "send_nonblock_accepted_%s", rfname[f]);
+			for (char *q = buf; *q; q++) if (*q == '-') *q = '_';
+			vf_stat(buf, t->nb_accepted[f]);
+			for (int pz = 0; pz < 2; pz++) {
+				if (t->refused_seen[f][pz]) vf_class("refused/%s/%s/%s/%s/%s", mname[cc->mode], tn, t->is_sock ? "sock" : "ctx", rfname[f], pz ? "pipes-busy" : "no-pipe");
+			}
+		}
+		vf_stat("estate_after_refused_send", t->refused_estate);
+		vf_stat("estate_after_refused_send_sync", t->refused_estate_sync);
+		vf_stat("refused_id_known", t->refused_id_known);
+		vf_stat("refused_id_forged_then_probed", t->refused_forged_probed);
+		vf_stat("requests_after_refused_send", t->refused_next);
+		vf_stat("send_and_recv_failed_together", t->sendrecv_together);
+		vf_stat("recv_refused_after_failed_send", t->sendrecv_estate);
+		vf_stat("timeout_beat_reply", t->timeout_race_won);
+		vf_stat("timeout_lost_to_reply", t->timeout_race_lost);
 		free(t->status);
 	}
 	vf_stat("replies_delivered", delivered);
 	long injected = 0, adversarial = 0;
 	for (int k = 0; k < K_N; k++) {
-		if (cc->mode != M_REP) {
+		// (echo replies exist only in rep mode, forged-before-wire frames
+		// only in the staged case, which has its own counters)
+		if (cc->mode != M_REP && k != K_ECHO && k != K_FORGED) {
 			snprintf(buf, sizeof(buf), "inj_%s", kname[k]);
 			vf_stat(buf, A.inj[k]);
 			injected += A.inj[k];
@@ -1728,7 +2091,7 @@ run_case(long idx, const casecfg *cc)
 			snprintf(buf, sizeof(buf), "discarded_%s", kname[k]);
 			vf_stat(buf, A.inj[k] - dlv[k]);
 			for (int s = 0; s < IS_N; s++) {
-				if (A.inj_seen[s][k]) vf_class("inj/%s/%s/%s/%s", mname[cc->mode], rt, isname[s], kname[k]);
+				if (A.inj_seen[s][k]) vf_class("inj/%s/%s/%s/%s/%s", mname[cc->mode], tn, rt, isname[s], kname[k]);
 			}
 		}
 		snprintf(buf, sizeof(buf), "dlv_%s", kname[k]);
@@ -2033,6 +2396,391 @@ staged_forged_early(long idx)
 	vf_nng_init(4, 2, 2);
 }
 
+// ------------------------------------------------------------ staged: a send refused on the spot
+// Deterministic companion of op_refused.  A raw TCP peer is the only pipe there
+// will ever be, so "no pipe is ready" is known, not guessed:
+//   no-peer     nothing has connected yet;
+//   pipe-busy   the only pipe is busy with a multi-megabyte request that the
+//               peer does not read;
+//   peer-gone   after a complete exchange the peer closed its connection (the
+//               redialled one is not served yet).
+// In that situation the victim (a context, or the socket) sends with
+// NNG_FLAG_NONBLOCK / a zero timeout / an expiry already past: refused.  Then
+//   1. receives in every form must fail with NNG_ESTATE (there is no request);
+//   2. the peer "answers" the refused request's id (taken from the header of the
+//      message handed back) and the next id, then genuinely answers a helper
+//      context on the same connection: when the helper has its reply the
+//      forged frames are processed, and a receive on the victim must still say
+//      NNG_ESTATE - never hand out a message;
+//   3. the victim's next request is an ordinary exchange, although the forged
+//      frames are repeated in front of the genuine reply.
+enum { SR_NOPEER, SR_BUSY, SR_GONE, SR_N };
+static const char *srname[SR_N] = { "no-peer", "pipe-busy", "peer-gone" };
+
+typedef struct {
+	nng_socket s;
+	nng_ctx    c;
+	bool       is_sock;
+	nng_aio   *sa, *ra;
+	int        sit;
+	long       estate;
+} srvictim;
+
+static int
+sr_raw_peer(int lfd, nng_socket s, int want_pipes)
+{
+	uint16_t peerproto = 0;
+	int      fd = vf_tcp_accept(lfd, LONG_MS);
+	if (fd < 0) vf_harness_fail("staged refused: raw accept");
+	if (vf_sp_handshake(fd, 0x31, &peerproto, LONG_MS) != 0 || peerproto != 0x30) vf_harness_fail("staged refused: raw handshake");
+	for (int i = 0; vf_pipe_count(s) < want_pipes; i++) {
+		if (i > 10000) vf_harness_fail("staged refused: pipe did not come up");
+		vf_msleep(1);
+	}
+	return fd;
+}
+
+// one receive that must be refused; form 0 aio, 1 non-blocking, 2 blocking
+static bool
+sr_recv_estate(srvictim *v, int form, const char *when)
+{
+	static const char *fname[3] = { "aio", "sync-nonblock", "sync-blocking" };
+	nng_msg           *m = NULL;
+	int                rv;
+	if (form == 0) {
+		nng_aio_set_timeout(v->ra, 300);
+		if (v->is_sock) {
+			nng_socket_recv(v->s, v->ra);
+		} else {
+			nng_ctx_recv(v->c, v->ra);
+		}
+		nng_aio_wait(v->ra);
+		rv = nng_aio_result(v->ra);
+		m = nng_aio_get_msg(v->ra);
+		nng_aio_set_msg(v->ra, NULL);
+	} else {
+		int fl = form == 1 ? NNG_FLAG_NONBLOCK : 0;
+		rv = v->is_sock ? nng_recvmsg(v->s, &m, fl) : nng_ctx_recvmsg(v->c, &m, fl);
+		if (rv != 0) m = NULL;
+	}
+	if (rv == NNG_ESTATE && m == NULL) {
+		v->estate++;
+		return true;
+	}
+	char key[160];
+	if (m != NULL) {
+		size_t   ml = nng_msg_len(m);
+		uint32_t kl = ml >= TRAILER ? get32((uint8_t *) nng_msg_body(m) + ml - 8) : K_N;
+		uint32_t fid = ml >= TRAILER ? get32((uint8_t *) nng_msg_body(m) + ml - 4) : 0;
+		snprintf(key, sizeof(key), "C04/unknown-id-delivered/refused-send-id/staged-%s/%s", srname[v->sit], when);
+		vf_violation(key, "staged (%s, %s victim): no request exists after the refused send, yet a %s receive %s returned a message (reply class %s, id %08x)", srname[v->sit], v->is_sock ? "socket" : "context", fname[form], when, kl < K_N ? kname[kl] : "?", fid);
+		nng_msg_free(m);
+	} else {
+		snprintf(key, sizeof(key), "C04/state/req-recv-after-refused-send/%s/%s/%s", srname[v->sit], fname[form], errname(rv));
+		vf_violation(key, "staged (%s, %s victim): a %s receive %s returned %s, expected NNG_ESTATE: the send was refused, nothing was queued or sent", srname[v->sit], v->is_sock ? "socket" : "context", fname[form], when, nng_strerror(rv));
+	}
+	return false;
+}
+
+// a send that must be refused; returns the id found in the returned message's
+// header (0: none), or 1 if the send was NOT refused as expected
+static uint32_t
+sr_refused_send(srvictim *v, int form, uint32_t tag, uint32_t seq)
+{
+	nng_msg *m;
+	int      rv;
+	size_t   size = VF_BODY_MIN + 24;
+	uint32_t rid = 0;
+	if (nng_msg_alloc(&m, size) != 0) vf_harness_fail("msg alloc");
+	vf_body_make(nng_msg_body(m), size, tag, seq);
+	if (form == RF_SYNC) {
+		rv = v->is_sock ? nng_sendmsg(v->s, m, NNG_FLAG_NONBLOCK) : nng_ctx_sendmsg(v->c, m, NNG_FLAG_NONBLOCK);
+		if (rv == NNG_EAGAIN) rv = NNG_ETIMEDOUT;
+		else if (rv == NNG_ETIMEDOUT) rv = NNG_EINTERNAL;
+	} else {
+		nng_aio_set_msg(v->sa, m);
+		nng_aio_set_timeout(v->sa, form == RF_AIO0 ? 0 : LONG_MS);
+		if (form == RF_EXPIRE) nng_aio_set_expire(v->sa, nng_clock());
+		if (v->is_sock) {
+			nng_socket_send(v->s, v->sa);
+		} else {
+			nng_ctx_send(v->c, v->sa);
+		}
+		nng_aio_wait(v->sa);
+		rv = nng_aio_result(v->sa);
+		m = rv != 0 ? nng_aio_get_msg(v->sa) : NULL;
+		nng_aio_set_msg(v->sa, NULL);
+	}
+	if (rv != NNG_ETIMEDOUT) {
+		// not refused (the plug may have fitted into the kernel's buffers,
+		// so that the pipe was ready): nothing staged, nothing to judge
+		vf_stat("staged_refused_not_refused", 1);
+		if (m != NULL) nng_msg_free(m);
+		return 1;
+	}
+	if (m != NULL) {
+		if (nng_msg_header_len(m) == 4) rid = get32(nng_msg_header(m));
+		nng_msg_free(m);
+	}
+	return (rid & 0x80000000u) ? rid : 0;
+}
+
+static void
+staged_refused(long idx, int sit)
+{
+	vf_rng     r;
+	nng_socket s;
+	nng_ctx    cv, ch, cp;
+	nng_aio   *sa[3], *ra[3]; // 0 victim, 1 helper, 2 plug
+	srvictim   v;
+	uint16_t   port = 0;
+	int        lfd, fd = -1, rv, sz = 4096;
+	char       url[64];
+	uint8_t    hdr[8 + 4 + VF_BODY_MIN], buf[256];
+	nng_msg   *m;
+	long       len;
+	const uint32_t nonce = 0xfd00;
+	uint32_t   vseq = 0;
+
+	vf_rng_seed(&r, vf_seed, 9000 + (uint64_t) idx);
+	bool   sock_victim = vf_chance(&r, 1, 3);
+	int    form = (int) vf_below(&r, RF_N), form2 = (int) vf_below(&r, RF_N);
+	bool   twice = vf_chance(&r, 1, 2);
+	size_t plug = (size_t) vf_range(&r, 3, 8) << 20;
+	vf_case_begin(idx, "staged: send refused on the spot (%s, %s victim, %s%s%s), then receive / forged replies to the refused id / next request", srname[sit], sock_victim ? "socket" : "context", rfname[form], twice ? " then " : "", twice ? rfname[form2] : "");
+	vf_watchdog(120);
+	atomic_store(&A.serial, 0);
+	if ((lfd = vf_tcp_listen(&port)) < 0) vf_harness_fail("raw listen");
+	setsockopt(lfd, SOL_SOCKET, SO_RCVBUF, &sz, sizeof(sz));
+	if (nng_req0_open(&s) != 0) vf_harness_fail("req open");
+	nng_socket_set_size(s, NNG_OPT_RECVMAXSZ, 0);
+	nng_socket_set_ms(s, NNG_OPT_RECONNMINT, 2);
+	nng_socket_set_ms(s, NNG_OPT_RECONNMAXT, 10);
+	nng_socket_set_ms(s, NNG_OPT_SENDTIMEO, LONG_MS);
+	nng_socket_set_ms(s, NNG_OPT_RECVTIMEO, 1000); // (a wrongly accepted blocking receive ends after 1 s)
+	if (nng_ctx_open(&cv, s) != 0 || nng_ctx_open(&ch, s) != 0 || nng_ctx_open(&cp, s) != 0) vf_harness_fail("ctx open");
+	for (int i = 0; i < 3; i++) {
+		if (nng_aio_alloc(&sa[i], NULL, NULL) != 0 || nng_aio_alloc(&ra[i], NULL, NULL) != 0) vf_harness_fail("aio alloc");
+	}
+	memset(&v, 0, sizeof(v));
+	v.s = s;
+	v.c = cv;
+	v.is_sock = sock_victim;
+	v.sa = sa[0];
+	v.ra = ra[0];
+	v.sit = sit;
+	snprintf(url, sizeof(url), "tcp://127.0.0.1:%u", port);
+#define SR_TAG(i) ((nonce << 16) | (uint32_t) (i))
+#define SR_SEND(i, ctx, size, seq)                                              \
+	do {                                                                    \
+		if (nng_msg_alloc(&m, (size)) != 0) vf_harness_fail("msg alloc"); \
+		vf_body_make(nng_msg_body(m), (size), SR_TAG(i), (seq));        \
+		nng_aio_set_msg(sa[i], m);                                      \
+		nng_aio_set_timeout(sa[i], 60000);                              \
+		if ((i) == 0 && sock_victim) {                                  \
+			nng_socket_send(s, sa[i]);                              \
+		} else {                                                        \
+			nng_ctx_send((ctx), sa[i]);                             \
+		}                                                               \
+	} while (0)
+#define SR_RECV(i, ctx)                                  \
+	do {                                             \
+		nng_aio_set_timeout(ra[i], 60000);       \
+		if ((i) == 0 && sock_victim) {           \
+			nng_socket_recv(s, ra[i]);       \
+		} else {                                 \
+			nng_ctx_recv((ctx), ra[i]);      \
+		}                                        \
+	} while (0)
+	bool     helper_out = false;
+	uint32_t id_h = 0, id_p = 0;
+	if (sit != SR_NOPEER) {
+		if ((rv = nng_dial(s, url, NULL, NNG_FLAG_NONBLOCK)) != 0) vf_harness_fail("dial: %s", nng_strerror(rv));
+		fd = sr_raw_peer(lfd, s, 1);
+	}
+	if (sit == SR_GONE) {
+		// a complete exchange of the victim first
+		SR_SEND(0, cv, VF_BODY_MIN + 16, ++vseq);
+		nng_aio_wait(sa[0]);
+		if (nng_aio_result(sa[0]) != 0) vf_harness_fail("staged refused: first send: %s", nng_strerror(nng_aio_result(sa[0])));
+		len = vf_sp_recv_frame(fd, false, buf, sizeof(buf), LONG_MS);
+		if (len < 4 + VF_BODY_MIN) vf_harness_fail("staged refused: first request not seen (%ld)", len);
+		pframe f = { .idword = get32(buf), .tag = SR_TAG(0), .seq = vseq, .klass = K_CORRECT };
+		if (tcp_emit(fd, &f) != 0) vf_harness_fail("staged refused: reply write");
+		SR_RECV(0, cv);
+		nng_aio_wait(ra[0]);
+		if ((rv = nng_aio_result(ra[0])) != 0) {
+			vf_violation("C04/disturbed/reply-not-delivered/staged-refused-first", "staged (peer-gone): the first, ordinary exchange failed: %s", nng_strerror(rv));
+		} else {
+			nng_msg_free(nng_aio_get_msg(ra[0]));
+			nng_aio_set_msg(ra[0], NULL);
+		}
+		close(fd);
+		fd = -1;
+		for (int i = 0; vf_pipe_count(s) > 0; i++) {
+			if (i > 10000) vf_harness_fail("staged refused: pipe did not go away");
+			vf_msleep(1);
+		}
+	} else if (sit == SR_BUSY) {
+		// helper's request is read and held; then the plug
+		SR_SEND(1, ch, VF_BODY_MIN + 40, 1);
+		nng_aio_wait(sa[1]);
+		if (nng_aio_result(sa[1]) != 0) vf_harness_fail("staged refused: helper send: %s", nng_strerror(nng_aio_result(sa[1])));
+		len = vf_sp_recv_frame(fd, false, buf, sizeof(buf), LONG_MS);
+		if (len < 4 + VF_BODY_MIN) vf_harness_fail("staged refused: helper request not seen (%ld)", len);
+		id_h = get32(buf);
+		SR_RECV(1, ch);
+		helper_out = true;
+		SR_SEND(2, cp, plug, 1);
+		nng_aio_wait(sa[2]);
+		if (nng_aio_result(sa[2]) != 0) vf_harness_fail("staged refused: plug send: %s", nng_strerror(nng_aio_result(sa[2])));
+		if (vf_fd_read_full(fd, hdr, sizeof(hdr), LONG_MS) != (long) sizeof(hdr)) vf_harness_fail("staged refused: plug header not seen");
+		id_p = get32(hdr + 8);
+	}
+	// the refused send(s), each followed by receives
+	uint32_t rid[2] = { 0, 0 };
+	int      nref = 0;
+	bool     ok = true;
+	for (int k = 0; k < (twice ? 2 : 1) && ok; k++) {
+		int fm = k == 0 ? form : form2;
+		rid[nref] = sr_refused_send(&v, fm, SR_TAG(0), ++vseq);
+		if (rid[nref] == 1) {
+			ok = false;
+			break;
+		}
+		vf_stat("staged_refused_sends", 1);
+		vf_class("staged-refused/%s/%s/%s", srname[sit], sock_victim ? "sock" : "ctx", rfname[fm]);
+		if (rid[nref] != 0) {
+			vf_stat("staged_refused_id_known", 1);
+			if (sit == SR_BUSY && rid[nref] == ((id_p + 1 + (uint32_t) k) | 0x80000000u)) vf_stat("staged_refused_id_predicted", 1);
+			nref++;
+		}
+		// aio first, then non-blocking; the blocking form only if those
+		// were refused
+		ok = sr_recv_estate(&v, vf_chance(&r, 1, 2) ? 0 : 1, "at-once");
+		if (ok) ok = sr_recv_estate(&v, 0, "repeated") && sr_recv_estate(&v, 1, "repeated");
+		if (ok && vf_chance(&r, 1, 2)) ok = sr_recv_estate(&v, 2, "repeated");
+	}
+	// the peer "answers" the refused ids
+	if (sit != SR_BUSY) {
+		if (sit == SR_NOPEER && (rv = nng_dial(s, url, NULL, NNG_FLAG_NONBLOCK)) != 0) vf_harness_fail("dial: %s", nng_strerror(rv));
+		fd = sr_raw_peer(lfd, s, 1);
+		SR_SEND(1, ch, VF_BODY_MIN + 40, 1);
+		nng_aio_wait(sa[1]);
+		if (nng_aio_result(sa[1]) != 0) vf_harness_fail("staged refused: helper send: %s", nng_strerror(nng_aio_result(sa[1])));
+		len = vf_sp_recv_frame(fd, false, buf, sizeof(buf), LONG_MS);
+		if (len < 4 + VF_BODY_MIN) vf_harness_fail("staged refused: helper request not seen (%ld)", len);
+		id_h = get32(buf);
+		SR_RECV(1, ch);
+		helper_out = true;
+	}
+	uint32_t forged[4];
+	int      nforged = 0;
+	for (int k = 0; k < nref; k++) forged[nforged++] = rid[k];
+	// (the id after the last refused one: not drawn yet, unless the helper's
+	// request, sent after the refusal, took it)
+	if (nref > 0 && ((rid[nref - 1] + 1) | 0x80000000u) != id_h) forged[nforged++] = (rid[nref - 1] + 1) | 0x80000000u;
+	if (ok && nforged > 0) {
+		for (int k = 0; k < nforged; k++) {
+			pframe f = { .idword = forged[k], .tag = SR_TAG(0), .seq = vseq, .klass = k < nref ? K_REFUSED : K_NEIGHBOUR };
+			if (tcp_emit(fd, &f) != 0) vf_harness_fail("staged refused: forged write");
+		}
+		vf_stat("staged_refused_forged_frames", nforged);
+	}
+	if (helper_out) {
+		pframe f = { .idword = id_h, .tag = SR_TAG(1), .seq = 1, .klass = K_CORRECT };
+		if (tcp_emit(fd, &f) != 0) vf_harness_fail("staged refused: marker write");
+		nng_aio_wait(ra[1]);
+		if ((rv = nng_aio_result(ra[1])) != 0) {
+			vf_violation("C04/disturbed/reply-not-delivered/staged-refused-helper", "staged (%s): the helper's genuine reply (sent after forged replies to a refused request's id) was not delivered: %s", srname[sit], nng_strerror(rv));
+			ok = false;
+		} else {
+			nng_msg_free(nng_aio_get_msg(ra[1]));
+			nng_aio_set_msg(ra[1], NULL);
+			// the forged frames have been processed by now
+			if (ok && nforged > 0 && sr_recv_estate(&v, 0, "after-forged-replies")) vf_stat("staged_refused_forged_discarded", 1);
+		}
+	}
+	if (sit == SR_BUSY) {
+		size_t   rest = plug - VF_BODY_MIN;
+		uint8_t *big = malloc(1 << 20);
+		while (rest > 0) {
+			size_t n = rest < (1u << 20) ? rest : (1u << 20);
+			if (vf_fd_read_full(fd, big, n, 30000) != (long) n) vf_harness_fail("staged refused: plug body truncated");
+			rest -= n;
+		}
+		free(big);
+	}
+	// the victim's next request: an ordinary exchange
+	if (ok) {
+		SR_SEND(0, cv, VF_BODY_MIN + 16, ++vseq);
+		nng_aio_wait(sa[0]);
+		if ((rv = nng_aio_result(sa[0])) != 0) {
+			char key[96];
+			snprintf(key, sizeof(key), "C04/disturbed/send-failed/staged-after-refused-%s", errname(rv));
+			vf_violation(key, "staged (%s): the request after a refused send failed: %s", srname[sit], nng_strerror(rv));
+			if ((m = nng_aio_get_msg(sa[0])) != NULL) nng_msg_free(m);
+			nng_aio_set_msg(sa[0], NULL);
+		} else {
+			uint32_t tag;
+			uint64_t seq;
+			len = vf_sp_recv_frame(fd, false, buf, sizeof(buf), LONG_MS);
+			if (len < 4 + VF_BODY_MIN || vf_body_check(buf + 4, (size_t) len - 4, &tag, &seq) != 0 || tag != SR_TAG(0) || seq != vseq) {
+				vf_violation("C04/disturbed/request-not-transmitted", "staged (%s): the request after a refused send did not reach the wire intact (%ld bytes)", srname[sit], len);
+			} else {
+				uint32_t id_v = get32(buf);
+				SR_RECV(0, cv);
+				// the forged frames once more, now with a request out
+				// (its id may be the "next id" forged above: skip that)
+				for (int k = 0; k < nforged; k++) {
+					if (forged[k] == id_v) continue;
+					pframe f = { .idword = forged[k], .tag = SR_TAG(0), .seq = vseq - 1, .klass = K_REFUSED };
+					if (tcp_emit(fd, &f) != 0) vf_harness_fail("staged refused: forged write");
+				}
+				pframe f = { .idword = id_v, .tag = SR_TAG(0), .seq = vseq, .klass = K_CORRECT };
+				if (tcp_emit(fd, &f) != 0) vf_harness_fail("staged refused: reply write");
+				nng_aio_wait(ra[0]);
+				rv = nng_aio_result(ra[0]);
+				m = nng_aio_get_msg(ra[0]);
+				nng_aio_set_msg(ra[0], NULL);
+				if (rv != 0 || m == NULL) {
+					vf_violation("C04/disturbed/reply-not-delivered/staged-after-refused", "staged (%s): the request after a refused send was transmitted and answered, but its receive returned %s", srname[sit], nng_strerror(rv));
+				} else {
+					size_t   ml = nng_msg_len(m);
+					uint32_t kl = ml >= TRAILER ? get32((uint8_t *) nng_msg_body(m) + ml - 8) : K_N;
+					uint32_t fid = ml >= TRAILER ? get32((uint8_t *) nng_msg_body(m) + ml - 4) : 0;
+					if (kl == K_CORRECT && fid == id_v) {
+						vf_stat("staged_refused_next_exchange_ok", 1);
+					} else {
+						char key[128];
+						snprintf(key, sizeof(key), "C04/unknown-id-delivered/refused-send-id/staged-%s/next-request", srname[sit]);
+						vf_violation(key, "staged (%s): the request after a refused send is on the wire with id %08x, but a reply of class %s carrying id %08x was delivered as its answer", srname[sit], id_v, kl < K_N ? kname[kl] : "?", fid);
+					}
+				}
+				if (m != NULL) nng_msg_free(m);
+			}
+		}
+	}
+	vf_stat("staged_refused_cases", 1);
+	vf_stat("staged_refused_estate", v.estate);
+	if (fd >= 0) close(fd);
+	close(lfd);
+	for (int i = 0; i < 3; i++) {
+		nng_aio_stop(sa[i]);
+		nng_aio_stop(ra[i]);
+		if ((m = nng_aio_get_msg(sa[i])) != NULL) nng_msg_free(m);
+		if ((m = nng_aio_get_msg(ra[i])) != NULL) nng_msg_free(m);
+		nng_aio_free(sa[i]);
+		nng_aio_free(ra[i]);
+	}
+	nng_ctx_close(cv);
+	nng_ctx_close(ch);
+	nng_ctx_close(cp);
+	nng_socket_close(s);
+	vf_nng_fini("C04");
+	vf_nng_init(4, 2, 2);
+}
+
 int
 main(int argc, char **argv)
 {
@@ -2076,6 +2824,10 @@ main(int argc, char **argv)
 	if (vf_shard == 0 && vf_want_case(vf_cases)) staged_late_timeout(vf_cases);
 	for (long j = 1; j <= (thorough ? 16 : 8); j++) {
 		if (vf_want_case(vf_cases + j)) staged_forged_early(vf_cases + j);
+	}
+	for (long j = 0; j < (thorough ? 12 : 6); j++) {
+		long sidx = vf_cases + 32 + j;
+		if (vf_want_case(sidx)) staged_refused(sidx, (int) (j % SR_N));
 	}
 	vf_nng_fini("C04");
 	return vf_finish();
